@@ -58,7 +58,10 @@ class ConstBuilder(exprgen.Builder):
             # character constants: type int (value of char), wide ones of their own types
             c = d(st.sampled_from(["a", "0", "~", " ", "\\n", "\\0", "\\377", "\\x80", "\\177", "\\\\", "\\'"]))
             raw = {"a": 97, "0": 48, "~": 126, " ": 32, "\\n": 10, "\\0": 0, "\\377": 255, "\\x80": 128, "\\177": 127, "\\\\": 92, "\\'": 39}[c]
-            pre = d(st.sampled_from(["", "", "u", "U"]))   # u8'x' is left to C14 (clang 14 cannot arbitrate it)
+            pre = d(st.sampled_from(["", "", "u", "U", "L", "L"]))   # u8'x' is left to C14 (clang 14 cannot arbitrate it)
+            if pre == "L":
+                # wchar_t is int on x86_64/riscv64 and unsigned int on aarch64; the escape's value is not sign-extended from 8 bits
+                return exprgen.Node("L'%s'" % c, raw, cm.INT if getattr(self, "ws", True) else cm.UINT)
             if pre == "":
                 v = raw - 256 if (self.cs and raw >= 128) else raw
                 return exprgen.Node("'%s'" % c, v, cm.INT)
@@ -161,6 +164,7 @@ def const_cases(draw):
     t = draw(st.integers(0, 2))
     cs = cproc.SIGNED_CHAR[cproc.TARGETS[t]]
     b = ConstBuilder(draw, cs)
+    b.ws = cproc.WCHAR_SIGNED[cproc.TARGETS[t]]
     items = []
     for i in range(draw(st.integers(4, 16))):
         n = b.expr(draw(st.integers(1, 4)))
